@@ -238,6 +238,12 @@ def F52():
     from formulaic.transforms import poly
     x = np.array([100, 20, -50], dtype="int8")
     return not np.allclose(poly(x, 3, raw=True, _state={}), poly(x.astype(float), 3, raw=True, _state={}))
+def F53():
+    x = np.array([3, 10, 200, 250, 40, 90], dtype="uint8")
+    f = "bs(x, knots=[50, 120], lower_bound=10, upper_bound=220, extrapolation='extend') - 1"
+    a = model_matrix(f, pd.DataFrame({"x": x}), context={}).values
+    b = model_matrix(f, pd.DataFrame({"x": x.astype(float)}), context={}).values
+    return not np.allclose(a, b)
 
 ids = sys.argv[1:] or [f"F{i}" for i in range(1, 26)]
 for i in ids:
